@@ -1308,6 +1308,17 @@ impl QueryRouter {
         }
     }
 
+    /// Should client statements be parsed at all? Yes when the parser is on for routing, and also
+    /// whenever the pool has plugins: a client must not be able to get its statements past them
+    /// by switching the parser off for its session (SET SERVER ROLE TO 'primary'|'replica'|'any').
+    pub fn statement_parsing_enabled(&self) -> bool {
+        if self.pool_settings.query_parser_enabled && self.pool_settings.plugins.is_some() {
+            return true;
+        }
+
+        self.query_parser_enabled()
+    }
+
     pub fn primary_reads_enabled(&self) -> bool {
         match self.primary_reads_enabled {
             None => self.pool_settings.primary_reads_enabled,
